@@ -60,15 +60,7 @@ EXHAUSTIVE = {'quick': False, 'thorough': True}
 # Names of KNOWN_TRIGGERS whose defect is not yet repaired in /repo: their trigger regions are
 # removed from the search (and counted) so that it continues behind them.  Remove a name once
 # its fix from /verif/proposed_fixes is applied - the replay in /verif/regressions/C13 then guards it.
-UNREPAIRED = {
-    'parallel_no_stored_entry',
-    'parallel_value_array_fewer_entries_than_pointers',
-    'amalgamate_source_selection_without_entry',
-    'amalgamate_no_stored_entry',
-    'copy_layer_to_x_sparse_no_stored_entry',
-    'copy_layer_to_x_sparse_contiguous_arrays',
-    'h5_copy_zero_length_chunked_dataset',
-}
+UNREPAIRED = set()   # all seven repairs are applied in /repo (see known_findings.json, 'fixed')
 
 
 def budget(tier):
